@@ -128,6 +128,13 @@ def shut(index, rep):
     rets = [r for r in g.body if isinstance(r, ast.Return)]
     got = [inl.src(e) for e in rets[0].value.elts] if len(rets) == 1 and isinstance(rets[0].value, ast.Tuple) else []
     want = [f"self.get_biofuel_usage({cp}['DELAY']['BIOFUEL_SHUTOFF_MONTHS'])", f"self.get_feed_usage({cp}['DELAY']['FEED_SHUTOFF_MONTHS'])"]
+    if got != want and got == [w.replace("['DELAY']", "") for w in want]:
+        # the routine is handed the DELAY sub-table itself: then every caller must hand exactly that over
+        from .core import bind_args as _bad
+        sites_ = [c for rel_ in index.py_files("src") for c in ast.walk(index.module(rel_)) if isinstance(c, ast.Call)
+                  and isinstance(c.func, ast.Attribute) and c.func.attr == "get_biofuels_and_feed_from_delayed_shutoff"]
+        if sites_ and all(norm_src(_bad(c, g).get(cp) or ast.Constant(value=None)).endswith("['DELAY']") for c in sites_):
+            got = want
     rep.check(got == want, rule, "durations:from-configured-delays", "the schedules are not built from DELAY[BIOFUEL|FEED_SHUTOFF_MONTHS] respectively",
               loc=loc(FAB, g), detail=str(got))
     rep.check(len(got) == 2 and got[0].startswith("self.get_biofuel_usage(") and got[1].startswith("self.get_feed_usage("), rule, "returns:(biofuels, feed)",
